@@ -409,17 +409,41 @@ Lemma guards_now :
 Proof. repeat split; reflexivity. Qed.
 
 (* the loops of one pass: the count of started iterations never exceeds the budget, whatever the loop counts are *)
+Lemma loop_charge_now : loop_charge_clamped = true.
+Proof. reflexivity. Qed.
+
 Lemma loop_enter_spec used count : 0 <= used <= 65536 ->
   (count <= 65536 - used -> loop_enter used count = SOk (used + loop_iterations count) /\ 0 <= used + loop_iterations count <= 65536) /\
   (65536 - used < count -> loop_enter used count = SDiag diag_loop_budget).
 Proof.
-  intros H. destruct guards_now as (L & _). unfold loop_enter, loop_iterations. rewrite L. split; intros C.
-  - assert (E : (65536 - used <? count) = false) by lia. rewrite E. split; [reflexivity|lia].
+  intros H. destruct guards_now as (L & _). unfold loop_enter, loop_charge, loop_iterations. rewrite L, loop_charge_now.
+  assert (I1 : in_i64 (65536 - used) = true) by (unfold in_i64, i64_min, i64_max; lia). rewrite I1. cbn [negb]. split; intros C.
+  - assert (E : (65536 - used <? count) = false) by lia. rewrite E.
+    assert (I2 : in_i64 (used + Z.max 0 count) = true) by (unfold in_i64, i64_min, i64_max; lia). rewrite I2. cbn [negb]. split; [reflexivity|lia].
   - assert (E : (65536 - used <? count) = true) by lia. rewrite E. reflexivity.
 Qed.
 
-Lemma loop_enter_total used count : loop_enter used count <> SPanic.
-Proof. unfold loop_enter. destruct loop_count_limit as [m|]; [destruct (m - used <? count)|]; discriminate. Qed.
+Lemma loop_enter_total used count : 0 <= used <= 65536 -> loop_enter used count <> SPanic.
+Proof.
+  intros H. destruct (loop_enter_spec used count H) as [A B]. destruct (Z_le_gt_dec count (65536 - used)) as [L|G].
+  - destruct (A L) as [-> _]. discriminate.
+  - rewrite (B ltac:(lia)). discriminate.
+Qed.
+
+(* the counter never decreases: a negative count refunds nothing to the loops that follow *)
+Lemma loop_enter_monotone used count u : 0 <= used <= 65536 -> loop_enter used count = SOk u -> used <= u.
+Proof.
+  intros H E. destruct (loop_enter_spec used count H) as [A B]. destruct (Z_le_gt_dec count (65536 - used)) as [L|G].
+  - destruct (A L) as [E' _]. rewrite E' in E. injection E as <-. unfold loop_iterations. lia.
+  - rewrite (B ltac:(lia)) in E. discriminate.
+Qed.
+
+(* what an unclamped charge would do (the shape a regression brings back): a negative loop refunds budget, and the guard of
+   the next loop overflows after a count near -2^63 *)
+Lemma unclamped_charge_refunds :
+  0 + (-4000000000000) < 0 /\ (65536 - (0 + (-4000000000000)) <? 4000000000000) = false /\
+  in_i64 (65536 - (0 + i64_min)) = false.
+Proof. repeat split; vm_compute; reflexivity. Qed.
 
 (* a whole pass: any sequence of loop counts (nested or not, in the order the loops are entered) starts at most
    65536 iterations before a diagnostic ends it *)
